@@ -5,6 +5,7 @@ package plugin
 
 import (
 	"crypto/tls"
+	"errors"
 	"fmt"
 	"io"
 	"net"
@@ -121,6 +122,13 @@ func (c *RPCClient) Close() error {
 	// want to try to close the other channels anyways.
 	var empty struct{}
 	returnErr := c.control.Call("Control.Quit", true, &empty)
+
+	// The plugin ends itself as soon as it has handled Quit and may be gone
+	// before its reply is written. A connection closed at this point means
+	// it is shutting down as asked, not that the request failed.
+	if errors.Is(returnErr, io.EOF) || errors.Is(returnErr, io.ErrUnexpectedEOF) || errors.Is(returnErr, rpc.ErrShutdown) {
+		returnErr = nil
+	}
 
 	// Close the other streams we have
 	if err := c.control.Close(); err != nil {
